@@ -447,7 +447,9 @@ def gen_case(rng: random.Random, max_blocks: int, mode: str) -> dict:
         case["stretch"] = [rng.randrange(3), rng.choice([0.5, 1.5, 2.5])]  # vertices moved between the two writes
     if rng.random() < (0.6 if mode == "under" else 0.15):
         gen_late(rng, case)
-    if rng.random() < 0.1 and len(asm["blocks"]) > 1:
+    # (only with chops that state their count: a count derived from a cell size sits on a rounding boundary when the
+    # edge length is a whole multiple of the size, and then depends on which of the merged corners came first)
+    if rng.random() < 0.12 and len(asm["blocks"]) > 1 and all("count" in kw for ch in chops for kw in ch["calls"]):
         # one block entered with corner coordinates that differ from its neighbours' by a little less than the merging
         # tolerance along a space diagonal (rounded input): still the same vertices, still the same families
         asm["noise"] = {"block": rng.randrange(len(asm["blocks"])),
